@@ -61,8 +61,11 @@ func runHistory(r *vkit.Run, caseNo int, rg *vkit.Rand, cfg histCfg) {
 	// a cache snapshot whose write failed is retained by the cache until a later snapshot
 	// succeeds (or the shard restarts)
 	failedSnapPending := false
+	// a delete ran while such a snapshot was retained (known finding: it does not see the
+	// snapshotted points; the damage can surface any number of operations later)
+	delRetained := false
 	fail := func(i int, d string) {
-		r.Violation(cfg.Class, mismatchFeatures(map[string]string{"after_op": hist[i].Kind, "background": fmt.Sprint(bg), "schedule": "sequential", "failed_snapshot_pending": fmt.Sprint(failedSnapPending)}),
+		r.Violation(cfg.Class, mismatchFeatures(map[string]string{"after_op": hist[i].Kind, "background": fmt.Sprint(bg), "schedule": "sequential", "failed_snapshot_pending": fmt.Sprint(failedSnapPending), "delete_with_retained_snapshot": fmt.Sprint(delRetained)}),
 			c01Wit{Case: caseNo, History: opStrings(hist), FailsAt: i, Diff: d, Files: s.TSMFiles()})
 	}
 	for i := 0; i < nops; i++ {
@@ -99,6 +102,10 @@ func runHistory(r *vkit.Run, caseNo int, rg *vkit.Rand, cfg histCfg) {
 			var keys []string
 			for _, si := range o.DelSeries {
 				keys = append(keys, series[si].Key)
+			}
+			if failedSnapPending {
+				delRetained = true
+				r.Event("deletes_with_retained_snapshot", 1)
 			}
 			if err := s.DeleteRange(keys, o.Min, o.Max); err != nil {
 				fail(i, "delete returned error: "+err.Error())
